@@ -26,64 +26,34 @@ def bidx (count : Nat) (wide : Bool) : List Nat :=
     (if count + 1 < 18446744073709551616 then [count + 1] else []) ++ [4294967295]
   (c.filter fun v => wide || v ≤ 4294967295).eraseDups
 
-/-- `sections[i]->get_data()` on the object -/
-def settle (o : Obj) (i : Nat) : Option (Obj × SecBuf) :=
-  match o.secs[i]? with
-  | none => none
-  | some b =>
-    let r := secGetData o.cls o.trans { st := o.stream } b
-    some ({ o with secs := o.secs.set i r.2, stream := r.1.st }, r.2)
-
-def isHashTy (t : BitVec 32) : Bool :=
-  t == BitVec.ofNat 32 SHT_HASH || t == BitVec.ofNat 32 SHT_GNU_HASH || t == BitVec.ofNat 32 DT_GNU_HASH
-
-/-- `find_hash_section()` : index of the first section linked to section `idx` with a hash type
-    (`hash_section_index`; 0 also means "none") -/
-def findHash (o : Obj) (idx : Nat) : Nat :=
-  let n := o.secs.length % 65536
-  let rec go (l : List SecBuf) (j : Nat) : Nat :=
-    match l with
-    | [] => 0
-    | s :: rest =>
-      if j ≥ n then 0
-      else if s.link.toNat == idx % 65536 && isHashTy s.stype then j else go rest (j + 1)
-  go o.secs 0
-
-/-- `symbol_section_accessor( elf, sections[i] )` : symbol section, `sections[(Elf_Half)sh_link]`, the hash
-    section, all made resident -/
-def symTabFor (o : Obj) (i : Nat) : Option (Obj × SymTab) :=
-  match settle o i with
-  | none => none
-  | some (o1, b) =>
-    let cfg : Cfg := ⟨o1.cls, o1.enc⟩
-    let (o2, str) := match settle o1 (b.link.setWidth 16).toNat with
-      | none => (o1, none)
-      | some (o2, s) => (o2, some s)
-    let hi := findHash o2 b.index
-    let (o3, hash) := if hi == 0 then (o2, none) else
-      match settle o2 hi with
-      | none => (o2, none)
-      | some (o3, h) => (o3, some h)
-    -- (the string / hash section may be section i itself: it is settled already)
-    some (o3, { cfg, sym := b, str, hash })
+open TQ
 
 def tf (b : Bool) : String := if b then "true" else "false"
 
-/-- runs `f k` for every index of `ks`, concatenating the pieces; the first fault ends the op -/
-def forIdx (ks : List Nat) (f : Nat → M String) : Except String String :=
-  let rec go (l : List Nat) (acc : String) : Except String String :=
+/-- runs the queries `qs k` for every index of `ks` one after the other on the object (`TQ.runQuery`),
+    concatenating the rendered results; the first fault ends the op -/
+def forIdx (o : Obj) (ks : List Nat) (qs : Nat → List Query) (render : Nat → Query → Out → String) :
+    Obj × Except String String :=
+  let rec goQ (o : Obj) (k : Nat) (l : List Query) (acc : String) : Obj × Except String String :=
     match l with
-    | [] => .ok acc
+    | [] => (o, .ok acc)
+    | q :: rest =>
+      match runQuery o q with
+      | .error e => (o, .error e.render)
+      | .ok (o1, out) => goQ o1 k rest (acc ++ render k q out)
+  let rec go (o : Obj) (l : List Nat) (acc : String) : Obj × Except String String :=
+    match l with
+    | [] => (o, .ok acc)
     | k :: rest =>
-      match f k with
-      | .error e => .error e.render
-      | .ok s => go rest (acc ++ s)
-  go ks ""
+      match goQ o k (qs k) acc with
+      | (o1, .error e) => (o1, .error e)
+      | (o1, .ok acc1) => go o1 rest acc1
+  go o ks ""
 
-def finish (o : Obj) (pre : String) (r : Except String String) : Obj × String :=
+def finish (pre : String) (r : Obj × Except String String) : Obj × String :=
   match r with
-  | .ok s => (o, pre ++ s)
-  | .error e => (o, e)
+  | (o, .ok s) => (o, pre ++ s)
+  | (o, .error e) => (o, e)
 
 /-- `DT_VERNEEDNUM` / `DT_VERDEFNUM` as the constructors of the version accessors find it: the dynamic
     accessor (C12's model) on the first section named `.dynamic` -/
@@ -120,6 +90,20 @@ def dynNum (o : Obj) (tag : Nat) : M (Obj × BitVec 32) :=
 def attrsStr (a : Attrs) : String :=
   s!"{a.size.toNat}/{a.bind.toNat}/{a.typ.toNat}/{a.shndx.toNat}/{a.other.toNat}"
 
+def relStr (k : Nat) (p : Option Reloc.Entry) : String :=
+  let e : Reloc.Entry := p.getD { offset := 0, symbol := 0, type := 0, addend := 0 }
+  s!" {k}:p:{tf p.isSome}/{e.offset.toNat}/{e.symbol.toNat}/{e.type.toNat}/{e.addend.toNat}"
+
+def resolvedStr (k : Nat) (r : TQ.Resolved) : String :=
+  s!" {k}:r:{tf r.ret}/{r.offset.toNat}/{r.symValue.toNat}/{bytesStr r.symName}/{r.type.toNat}/{r.addend.toNat}/{r.calcValue.toNat}"
+
+/-- one query whose result is the whole output line -/
+def single (o : Obj) (q : Query) (render : Out → String) : Obj × String :=
+  match runQuery o q with
+  | .error f => (o, f.render)
+  | .ok (o1, .null) => (o1, "null")
+  | .ok (o1, out) => (o1, render out)
+
 /-- the C18 ops; `none`: not one of them -/
 def step (o : Obj) (t : List String) : Option (Obj × String) :=
   match t with
@@ -129,37 +113,18 @@ def step (o : Obj) (t : List String) : Option (Obj × String) :=
     match settle o i with
     | none => some (o, "null")
     | some (o1, b) =>
-      let enc := o1.enc
-      let (o2, symtab) := match symTabFor o1 (TQ.relSymtabIndex b) with
-        | none => (o1, none)
-        | some (o2, st) => (o2, some st)
       match Reloc.entriesNum b with
-      | .error f => some (o2, f.render)
+      | .error f => some (o1, f.render)
       | .ok n =>
-        some <| finish o2 s!"rel n={n.toNat}" <| forIdx (bidx n.toNat true) fun k =>
-          match TQ.relGet enc b (BitVec.ofNat 64 k) with
-          | .error f => .error f
-          | .ok p =>
-            let e : Reloc.Entry := p.getD { offset := 0, symbol := 0, type := 0, addend := 0 }
-            match TQ.relGetResolved enc b symtab (BitVec.ofNat 64 k) with
-            | .error f => .error f
-            | .ok r =>
-              pure (s!" {k}:p:{tf p.isSome}/{e.offset.toNat}/{e.symbol.toNat}/{e.type.toNat}/{e.addend.toNat}" ++
-                    s!" {k}:r:{tf r.ret}/{r.offset.toNat}/{r.symValue.toNat}/{bytesStr r.symName}/{r.type.toNat}/{r.addend.toNat}/{r.calcValue.toNat}")
+        some <| finish s!"rel n={n.toNat}" <| forIdx o1 (bidx n.toNat true)
+          (fun k => [.relGet i (BitVec.ofNat 64 k), .relGetResolved i (BitVec.ofNat 64 k)])
+          (fun k _ out => match out with | .rel p => relStr k p | .resolved r => resolvedStr k r | _ => "?")
   | "symname" :: i :: h :: _ =>
-    match symTabFor o (parseNat i) with
-    | none => some (o, "null")
-    | some (o1, st) =>
-      match TQ.getByName st (bytesOfHex h) {} with
-      | .error f => some (o1, f.render)
-      | .ok r => some (o1, s!"symname {tf r.1}/{r.2.value.toNat}/{attrsStr r.2}")
+    some <| single o (.symByName (parseNat i) (bytesOfHex h)) fun out =>
+      match out with | .byName r => s!"symname {tf r.1}/{r.2.value.toNat}/{attrsStr r.2}" | _ => "?"
   | "symvalue" :: i :: v :: _ =>
-    match symTabFor o (parseNat i) with
-    | none => some (o, "null")
-    | some (o1, st) =>
-      match TQ.getByValue st (BitVec.ofNat 64 (parseNat v)) [] {} with
-      | .error f => some (o1, f.render)
-      | .ok r => some (o1, s!"symvalue {tf r.1}/{bytesStr r.2.1}/{attrsStr r.2.2}")
+    some <| single o (.symByValue (parseNat i) (BitVec.ofNat 64 (parseNat v))) fun out =>
+      match out with | .byValue r => s!"symvalue {tf r.1}/{bytesStr r.2.1}/{attrsStr r.2.2}" | _ => "?"
   | [op, i] =>
     let i := parseNat i
     if op == "arr32" || op == "arr64" then
@@ -168,69 +133,45 @@ def step (o : Obj) (t : List String) : Option (Obj × String) :=
       | some (o1, b) =>
         let w : Arr.W := if op == "arr32" then .w4 else .w8
         let n := (Arr.entriesNum w b).toNat
-        some <| finish o1 s!"{op} n={n}" <| forIdx (bidx n true) fun k =>
-          match TQ.arrGet w o1.enc b (BitVec.ofNat 64 k) with
-          | .error f => .error f
-          | .ok r => pure s!" {k}:{tf r.isSome}/{(r.getD 0).toNat}"
+        some <| finish s!"{op} n={n}" <| forIdx o1 (bidx n true) (fun k => [.arrGet w i (BitVec.ofNat 64 k)])
+          (fun k _ out => match out with | .addr r => s!" {k}:{tf r.isSome}/{(r.getD 0).toNat}" | _ => "?")
     else if op == "versym" then
       match settle o i with
       | none => some (o, "null")
       | some (o1, b) =>
-        let num := Versym.mk b
-        let n := (Versym.entriesNum num).toNat
-        some <| finish o1 s!"versym n={n}" <| forIdx (bidx n false) fun k =>
-          match TQ.versymGet b num (BitVec.ofNat 32 k) with
-          | .error f => .error f
-          | .ok r => pure s!" {k}:{tf r.isSome}/{(r.getD 0).toNat}"
+        let n := (Versym.entriesNum (Versym.mk b)).toNat
+        some <| finish s!"versym n={n}" <| forIdx o1 (bidx n false) (fun k => [.versymGet i (BitVec.ofNat 32 k)])
+          (fun k _ out => match out with | .half r => s!" {k}:{tf r.isSome}/{(r.getD 0).toNat}" | _ => "?")
     else if op == "verneed" || op == "verdef" then
       match settle o i with
       | none => some (o, "null")
-      | some (o1, b) =>
+      | some (o1, _) =>
         let need := op == "verneed"
+        -- the constructor reads the entry count from `.dynamic` (C12's accessor model)
         match dynNum o1 (if need then DT_VERNEEDNUM else DT_VERDEFNUM) with
         | .error f => some (o1, f.render)
         | .ok (o2, num) =>
-          -- (the `.dynamic` lookup may have made section i itself resident: take it from the object)
-          let b := (o2.secs[i]?).getD b
-          let (o3, str) := match settle o2 b.link.toNat with
-            | none => (o2, none)
-            | some (o3, s) => (o3, some s)
-          let b := (o3.secs[i]?).getD b
-          let enc := o3.enc
-          some <| finish o3 s!"{op} n={num.toNat}" <| forIdx (bidx num.toNat false) fun k =>
-            if need then
-              match TQ.needGet enc b str num (BitVec.ofNat 32 k) with
-              | .error f => .error f
-              | .ok none => pure s!" {k}:false/0/-/0/0/0/-"
-              | .ok (some v) =>
-                pure s!" {k}:true/{v.version.toNat}/{bytesStr v.file}/{v.hash.toNat}/{v.flags.toNat}/{v.other.toNat}/{bytesStr v.name}"
-            else
-              match TQ.defGet enc b str num (BitVec.ofNat 32 k) with
-              | .error f => .error f
-              | .ok none => pure s!" {k}:false/0/0/0/-"
-              | .ok (some v) => pure s!" {k}:true/{v.flags.toNat}/{v.ndx.toNat}/{v.hash.toNat}/{bytesStr v.name}"
+          some <| finish s!"{op} n={num.toNat}" <| forIdx o2 (bidx num.toNat false)
+            (fun k => [if need then .needGet i num (BitVec.ofNat 32 k) else .defGet i num (BitVec.ofNat 32 k)])
+            (fun k _ out => match out with
+              | .need none => s!" {k}:false/0/-/0/0/0/-"
+              | .need (some v) =>
+                s!" {k}:true/{v.version.toNat}/{bytesStr v.file}/{v.hash.toNat}/{v.flags.toNat}/{v.other.toNat}/{bytesStr v.name}"
+              | .vdef none => s!" {k}:false/0/0/0/-"
+              | .vdef (some v) => s!" {k}:true/{v.flags.toNat}/{v.ndx.toNat}/{v.hash.toNat}/{bytesStr v.name}"
+              | _ => "?")
     else if op == "arrange" then
-      match settle o i with
-      | none => some (o, "null")
-      | some (o1, _) =>
-        -- every OTHER relocation section linked to section i, made resident
-        let n := o1.secs.length % 65536
-        let idxs := (List.range n).filter fun j =>
-          match o1.secs[j]? with
-          | some r => j != i && (r.stype == BitVec.ofNat 32 SHT_REL || r.stype == BitVec.ofNat 32 SHT_RELA) && r.link.toNat == i
-          | none => false
-        let o2 := idxs.foldl (fun o j => match settle o j with | some (o', _) => o' | none => o) o1
-        let rels := idxs.filterMap fun j => o2.secs[j]?
-        match o2.secs[i]? with
-        | none => some (o2, "null")
-        | some s =>
-          match TQ.arrange (TQ.swapAll o2.enc) s rels with
-          | .error f => some (o2, f.render)
-          | .ok (s', rels', ret) =>
-            let secs := (idxs.zip rels').foldl (fun l (p : Nat × SecBuf) => l.set p.1 p.2) (o2.secs.set i s')
-            let o3 := { o2 with secs := secs }
-            some (o3, s!"arrange ret={ret.toNat} info={s'.info.toNat} data={dataStr s'.data s'.size.toNat}" ++
-              String.join ((idxs.zip rels').map fun (p : Nat × SecBuf) => s!" rel{p.2.index % 65536}={dataStr p.2.data p.2.size.toNat}"))
+      match runQuery o (.arrange i) with
+      | .error f => some (o, f.render)
+      | .ok (o1, .arranged ret) =>
+        match o1.secs[i]? with
+        | none => some (o1, "null")
+        | some s' =>
+          -- (sh_type / sh_link are not changed by the query: the same sections as inside it)
+          let rels := (TQ.relsOf o1 i).filterMap fun j => o1.secs[j]?
+          some (o1, s!"arrange ret={ret.toNat} info={s'.info.toNat} data={dataStr s'.data s'.size.toNat}" ++
+            String.join (rels.map fun r => s!" rel{r.index % 65536}={dataStr r.data r.size.toNat}"))
+      | .ok (o1, _) => some (o1, "null")
     else none
   | _ => none
 
